@@ -246,7 +246,7 @@ class Check:
         inputs: {name: z3 term} (for known-finding regions and counterexample printing).
         replay(model) -> (reproduced: bool, request dict, observation) ; required for reporting."""
         inputs = inputs or {}
-        regions = [e for e in self.known if e.get('obligation') == name and e.get('status', 'known') == 'known']
+        regions = [e for e in self.known if (e.get('obligation') == name or (e.get('obligation_prefix') and name.startswith(e['obligation_prefix']))) and e.get('status', 'known') == 'known']
         rec = {'id': name, 'kind': kind, 'bound': bound, 'verdict': None, 'solver_s': 0.0}
         neg = z3.Not(claim)
         region_terms = []
